@@ -55,6 +55,50 @@ INPUTS = {
 }
 
 
+# ---- generated inputs: the single top-level field in every type kind x arrangements of operations in the package
+KIND_SCHEMA = """
+enum Color { RED GREEN }
+scalar DT
+scalar Blob
+type T { id: ID! }
+type V { v: Int }
+union U = T | V
+type Query { anInt: Int! aStr: String anEnum: Color! enums: [Color!] aDT: DT dts: [DT!]! aBlob: Blob obj: T objs: [T!]! un: U takesDT(dt: DT, c: Color): Int }
+"""
+KIND_OPS = {
+    "int": "query GetInt { anInt }", "str": "query GetStr { aStr }", "enum": "query GetEnum { anEnum }", "enum_list": "query GetEnums { enums }",
+    "scalar_native": "query GetDT { aDT }", "scalar_native_list": "query GetDTs { dts }", "scalar_parsed": "query GetBlob { aBlob }",
+    "object": "query GetObj { obj { id } }", "object_list": "query GetObjs { objs { id } }", "union": "query GetUn { un { ... on T { id } ... on V { v } } }",
+    "aliased_enum": "query GetAliased { colour: anEnum }",
+}
+KIND_OPTIONS = {"scalars": {"DT": {"type": "datetime.datetime"}, "Blob": {"type": "Any", "parse": ".blob_scalars.parse_blob", "serialize": ".blob_scalars.serialize_blob"}},
+                "files_to_include": ["@blob_scalars.py"]}
+KIND_PLUGIN_SETS = [(), ("shorter",), ("shorter", "forwardrefs"), ("forwardrefs", "shorter"), ("shorter", "extract"), ("forwardrefs",), ("extract",), ("shorter", "noreimports")]
+
+
+def kind_inputs():
+    out = {}
+    other = "query Other { obj { id } }"
+    arg = "query WithArg($dt: DT, $c: Color) { takesDT(dt: $dt, c: $c) }"
+    for k, q in KIND_OPS.items():
+        arrangements = {"alone": [q], "first": [q, other], "last": [other, q], "with_argument_use": [q, arg], "after_argument_use": [arg, q]}
+        sel = q[q.index("{") + 1: q.rindex("}")].strip()
+        arrangements["via_root_fragment"] = ["query ViaFrag { ...Part }", f"fragment Part on Query {{ {sel} }}"]
+        arrangements["via_root_fragment_then_other"] = ["query ViaFrag { ...Part }", other, f"fragment Part on Query {{ {sel} }}"]
+        for an, qs in arrangements.items():
+            out[f"kind:{k}:{an}"] = dict(schema=KIND_SCHEMA, queries="\n".join(qs) + "\n", options=KIND_OPTIONS, files={"blob_scalars.py": SCALARS_PY})
+    allq = list(KIND_OPS.values())
+    # (no custom scalar here: custom operations + dotted scalar type is the C04 finding custom_operations+custom_scalar)
+    out["kind:custom_operations"] = dict(schema="enum Color { RED GREEN }\ntype T { id: ID! }\ntype Query { anEnum: Color! obj: T withArg(c: Color): Int }\n",
+                                         queries=KIND_OPS["enum"] + "\n" + other + "\nquery WithArg($c: Color) { withArg(c: $c) }\n", options={"enable_custom_operations": True})
+    out["kind:all:forward"] = dict(schema=KIND_SCHEMA, queries="\n".join(allq) + "\n", options=KIND_OPTIONS, files={"blob_scalars.py": SCALARS_PY})
+    out["kind:all:reversed"] = dict(schema=KIND_SCHEMA, queries="\n".join(reversed(allq)) + "\n", options=KIND_OPTIONS, files={"blob_scalars.py": SCALARS_PY})
+    return out
+
+
+INPUTS.update(kind_inputs())
+
+
 def sha(b):
     return hashlib.sha256(b).hexdigest()
 
@@ -67,8 +111,14 @@ def norm(v):
         return [norm(x) for x in v]
     if isinstance(v, tuple):
         return [norm(x) for x in v]
+    import enum as _enum
+    if isinstance(v, _enum.Enum):
+        return v.value
     if hasattr(v, "value") and not isinstance(v, (str, int, float)):
         return v.value
+    import datetime
+    if isinstance(v, datetime.datetime):
+        return v.isoformat()
     return v
 
 
@@ -148,7 +198,7 @@ def evaluate(case):
                 body = json.loads(request.content)
                 state["body"] = body
                 res, _ = refexec.execute(schema, body["query"], body.get("variables") or {}, state["choose"], operation_name=body.get("operationName"),
-                                         scalar_values={"Blob": {"b": 1}})
+                                         scalar_values={"Blob": {"b": 1}, "DT": "2020-01-02T03:04:05"})
                 state["res"] = res
                 return httpx.Response(200, json={"data": res.data} if not res.errors else {"data": res.data, "errors": [{"message": e.message} for e in res.errors]})
             c = clients.make_client(Client, True, handler)
@@ -283,9 +333,9 @@ def main(tier):
     psets = plugin_sets(tier)
     cases = []
     for iname in INPUTS:
-        for ps in psets:
+        for ps in (KIND_PLUGIN_SETS if iname.startswith("kind:") else psets):
             cases.append(dict(input=iname, plugins=[PLUGINS[p] for p in ps], pnames=ps))
-        for order in hook_order_cases():
+        for order in ([] if iname.startswith("kind:") else hook_order_cases()):
             cases.append(dict(input=iname, plugins=list(order), pnames=("tag:" + order[0][-7], "tag:" + order[1][-7]), hook_order=True))
     results = pool.run_cases(evaluate, cases, timeout=600, progress=200)
     base = {}
